@@ -29,6 +29,8 @@ func c12Build(steps int) *sched.Exec {
 	seed = append(seed, sched.Action{K: "S", A: 3}, sched.Action{K: "Start", A: 4, B: 0, Lim: 1}, sched.Action{K: "J", A: 4, B: 0})
 	seed = append(seed, sched.FairSeed(nodesOf(3), steps, 4)...)
 	seed = append(seed, sched.Action{K: "H", A: 3})
+	// key 5: a second newcomer with fast-sync that has not asked anybody yet (state Joining)
+	seed = append(seed, sched.Action{K: "Start", A: 5, B: 0, Lim: 1})
 	sc := &sched.Scenario{Name: "c12", Cfg: sim.Config{N: 4}, Asked: map[int]int{4: 0}}
 	x := sched.NewExec(sc, nil)
 	x.NoDigest = true
@@ -159,8 +161,10 @@ func init() {
 			for _, p := range c.Genesis {
 				ks[p.PubKeyString()] = true
 			}
-			for _, p := range n.Node.GetPeers() {
-				ks[p.PubKeyString()] = true
+			// the peer list the node was configured with (not the list it holds now: what the node
+			// lets in there at run time is part of what is being checked)
+			for _, k := range n.Configured {
+				ks[k] = true
 			}
 			all, _ := n.Node.GetAllValidatorSets()
 			for _, ps := range all {
@@ -201,6 +205,30 @@ func init() {
 					}()
 					err = t.Node.VCoreFastForward(&blk, &frm)
 				}()
+			} else if it.Level == "forged-join" {
+				// the newcomer (Joining) asks a hostile peer to join: the peer answers by itself "accepted" with a
+				// peer list made of the forged validator set, then serves the forged fast-forward response
+				hostile := &sim.Plan{Answer: func(kind string, args interface{}) (interface{}, bool) {
+					switch kind {
+					case "join":
+						return &net.JoinResponse{FromID: c.Nodes[0].Peer.ID(), Accepted: true, AcceptedRound: 0, Peers: msg.Frame.Peers}, true
+					case "ff":
+						return tamper.Copy(msg), true
+					}
+					return nil, false
+				}}
+				if jerr := c.Join(it.Target, hostile); jerr != nil {
+					err = fmt.Errorf("join: %v", jerr)
+				} else if st := t.Node.GetState(); st != state.CatchingUp {
+					err = fmt.Errorf("after the accepted join the node is %s", st)
+				} else {
+					err = c.FastForward(it.Target, hostile)
+				}
+				if c.Panic != "" {
+					res.Classes["panic (C08's subject)"]++
+					build()
+					return
+				}
 			} else {
 				plan := &sim.Plan{ForceOK: true, MutateResp: func(kind string, resp interface{}) interface{} {
 					if kind != "ff" {
@@ -238,6 +266,10 @@ func init() {
 			res.Classes["refused"]++
 			changed := c.DataDigest() != before
 			appChanged := appDigest(t) != ab
+			if it.Level == "forged-join" && !appChanged {
+				build() // the join itself moved the node on; the next attempt starts from a newcomer again
+				return
+			}
 			if appChanged {
 				viol("refused-but-application-changed:"+it.Level, fmt.Sprintf("node %d refused the response with %s (%v) but its application was already restored from the snapshot", it.Target, label, err), rp)
 			} else if changed {
@@ -281,6 +313,20 @@ func init() {
 				var cerr error
 				if strings.HasSuffix(it.Level, "core") {
 					cerr = t.Node.VCoreFastForward(&ctl.Block, &ctl.Frame)
+				} else if it.Level == "forged-join" {
+					// control: the same sequence with an honest answer (accepted, the real peer list) and the honest anchor
+					honest := &sim.Plan{Answer: func(kind string, args interface{}) (interface{}, bool) {
+						switch kind {
+						case "join":
+							return &net.JoinResponse{FromID: c.Nodes[0].Peer.ID(), Accepted: true, AcceptedRound: 0, Peers: c.Nodes[0].Node.GetPeers()}, true
+						case "ff":
+							return tamper.Copy(ctl), true
+						}
+						return nil, false
+					}}
+					if cerr = c.Join(it.Target, honest); cerr == nil {
+						cerr = c.FastForward(it.Target, honest)
+					}
 				} else {
 					cerr = c.FastForward(it.Target, &sim.Plan{FFFrom: 2})
 				}
@@ -328,6 +374,7 @@ func init() {
 			for _, target := range []int{4, 3, 0} {
 				items = append(items, FFItem{Target: target, Level: "forged-core"}, FFItem{Target: target, Level: "forged-node"})
 			}
+			items = append(items, FFItem{Target: 5, Level: "forged-join"})
 		}
 		raw := make([]json.RawMessage, len(items))
 		for i, it := range items {
@@ -383,7 +430,7 @@ func init() {
 		if prop == "C12" {
 			cov["rule"] = "a valid (block, frame, snapshot) triple served by an honest node of a 4-validator + joiner history, JSON-copied, with every single field replaced by every value of the hostile grammar (reflection over block body, signature map incl. the same signer under re-encoded keys, frame round/timestamp/peers/roots/events/peer-set history, snapshot) plus targeted signature-map attacks (signatures removed down to and below the threshold, signature of another body, non-member signer, one signer under several spellings); presented to a fresh joiner, a lagging validator with history and a validator that is ahead, at core.fastForward and through the node's own Node.fastForward against a hostile responder. Oracle: adopted => the harness's own predicate (frame hashes to FrameHash, frame peers hash to PeersHash, valid signatures of > n/3 distinct members); refused => digest of hashgraph, store, validator sets, head AND application unchanged. Each attempt is distinct (distinct_nontrivial = attempts)"
 		} else {
-			cov["rule"] = "forged responses built from a real, self-consistent network of 1..4 strangers (harness keys 10..13 run as their own babble network; its genuine anchor block, frame and snapshot are correctly signed by all of them), with variations (a known peer listed in the forged set but not signing, a known peer with an invalid signature, block index rewritten and re-signed by the strangers); presented to a fresh joiner, a lagging validator and a validator that is ahead at core.fastForward and through Node.fastForward (the forger answering every request). Oracle: a response without a valid signature from any key in the node's configured peers, genesis peers or stored validator sets must be refused and leave the node's digest and application unchanged"
+			cov["rule"] = "forged responses built from a real, self-consistent network of 1..4 strangers (harness keys 10..13 run as their own babble network; its genuine anchor block, frame and snapshot are correctly signed by all of them), with variations (a known peer listed in the forged set but not signing, a known peer with an invalid signature, block index rewritten and re-signed by the strangers); presented to a fresh joiner, a lagging validator and a validator that is ahead at core.fastForward and through Node.fastForward (the forger answering every request); and to a newcomer that is still Joining, whose join request the forger answers itself with accepted=true and a peer list made of the forged validator set before serving the forged response (real Node.join, then Node.fastForward). Oracle: a response without a valid signature from any key in the peer list the node was started with, its genesis peers or its stored validator sets must be refused and leave the node's digest and application unchanged"
 		}
 		rep.Assumptions = []string{"Frame.Hash is used as given (C15 checks that it is a function of the frame's content)"}
 		if tot.Attempts == 0 {
